@@ -251,6 +251,15 @@ static std::string probe(const std::string& name, const std::vector<std::string>
         Provider p(c);
         return "seeded";
     }
+    if (name == "seed_list") {   // Config::read_seeds(vector): exactly one seed per documented name
+        Config c;
+        std::vector<unsigned> v;
+        for (int i = 0; i < std::stoi(arg(0)); i++)
+            v.push_back((unsigned)(i + 1));
+        c.read_seeds(v);
+        Provider p(c);
+        return "seeded";
+    }
     if (name == "provider_as_generator") {
         Provider p(7u, true);
         if (arg(0) == "discard") {
